@@ -196,6 +196,8 @@ pub fn run(ctx: &Ctx) -> i32 {
         let w = bad64(x).unwrap_or_default();
         ctx.violation("int64", &format!("64-bit pair: {}", w), json!({"kind": "u64", "x": format!("{}", x)}));
     }
+    ctx.sample(json!({"u32": "0x40008001", "int32_hash": format!("{:#x}", int32_hash(0x40008001)), "int32_hash_inverse_of_that": format!("{:#x}", int32_hash_inverse(int32_hash(0x40008001)))}));
+    ctx.sample(json!({"u64": "0xfffffffffffffffe", "int64_hash": format!("{:#x}", int64_hash(0xfffffffffffffffe)), "int64_hash_inverse_of_that": format!("{:#x}", int64_hash_inverse(int64_hash(0xfffffffffffffffe)))}));
     println!("C19 32-bit: {} values (complete domain); 64-bit: {} structured values", n32, n64);
     let coverage = json!({
         "evaluations": n32 + n64,
